@@ -19,12 +19,12 @@ theorem new_ok (A : View α) (N : Nat)  : new A N = .ok (s0 A N) := by
 
 @[simp] def abs (A : View α) (s : State α A.σ) : A.σ × BentState α := (s.view, { q := s.q_vals, p := s.p })
 
-theorem upd_eq (A : View α)  (s : State α A.σ) (x : α)  :
+theorem upd_eq (A : View α)  (s : State α A.σ) (x : α)   :
     (update A s x).map (abs A) = (wrap A (bentCore s.window_len)).upd (abs A s) x := by
   simp only [update, wrap, mapV, binop, bentCore, abs]; gen_tie
-theorem upd_cfg (A : View α) (s s' : State α A.σ) (x : α) : update A s x = .ok s' → s'.window_len = s.window_len := by
+theorem upd_cfg (A : View α) (s s' : State α A.σ) (x : α)  : update A s x = .ok s' → s'.window_len = s.window_len := by
   simp only [update, bentCore]; gen_tie
-theorem last_eq (A : View α)  (s : State α A.σ)  : last A s = (wrap A (bentCore s.window_len)).last (abs A s) := by
+theorem last_eq (A : View α)  (s : State α A.σ)   : last A s = (wrap A (bentCore s.window_len)).last (abs A s) := by
   simp only [last, wrap, mapV, binop, bentCore, abs]; gen_tie
 
 def sim (A : View α) (N : Nat)  : Sim (mkView (s0 A N) (update A) (last A)) (wrap A (bentCore N)) where
@@ -34,15 +34,15 @@ def sim (A : View α) (N : Nat)  : Sim (mkView (s0 A N) (update A) (last A)) (wr
   init_abs := by rfl
   upd := fun (s : State α A.σ) x hs => by
     have h0 : s.window_len = N := hs
-    have := upd_eq A s x  
+    have := upd_eq A s x   
     (try rw [h0] at this); exact this
   upd_cfg := fun (s : State α A.σ) x s' hs h => by
     have h0 : s.window_len = N := hs
-    have := upd_cfg A s s' x h
+    have := upd_cfg A s s' x  h
     simp_all
   last := fun (s : State α A.σ) hs => by
     have h0 : s.window_len = N := hs
-    have := last_eq A s  
+    have := last_eq A s   
     (try rw [h0] at this); exact this
 
 /-- the Rust text of `BinaryEntropy`, as translated, and the model agree on every input: same answers, same panics -/
